@@ -29,10 +29,11 @@ type Line struct {
 }
 
 type Env struct {
-	Srv      *c10.Server
-	PKI      *c10.PKI
-	KeyStore string
-	Keys     *JWKMaterial
+	Srv       *c10.Server
+	PKI       *c10.PKI
+	KeyStore  string
+	Keys      *JWKMaterial
+	KeyStore2 string // the same keys, another one first
 }
 
 func NewEnv(dir string) (*Env, error) {
@@ -51,7 +52,12 @@ func NewEnv(dir string) (*Env, error) {
 		return nil, err
 	}
 
-	return &Env{Srv: c10.NewServer(), PKI: pki, KeyStore: ks, Keys: km}, nil
+	ks2, err := pki.KeyStoreFile("k2", "k1")
+	if err != nil {
+		return nil, err
+	}
+
+	return &Env{Srv: c10.NewServer(), PKI: pki, KeyStore: ks, KeyStore2: ks2, Keys: km}, nil
 }
 
 func (e *Env) Close() { e.Srv.Close() }
@@ -69,7 +75,7 @@ func (e *Env) build(p Pair, side int, base string, sc *c10.Script) (evalFn, erro
 	case "jwt_jwk":
 		return jwtJWK(p, side, base, e.Keys)
 	case "jwt_finalizer":
-		return jwtFinalizer(p, side, e.KeyStore)
+		return jwtFinalizer(p, side, e.KeyStore, e.KeyStore2)
 	case "cc_finalizer":
 		return clientCredentials(p, side, base, false, sc)
 	case "cc_strategy":
